@@ -46,11 +46,23 @@ fn any_name(rng: &mut Rng) -> &'static str {
 }
 
 /// One ignore-file line.
+/// Less usual pattern forms (a third of the generated lines).
+const EXOTIC: &[&str] = &[
+    "[[:alpha:]]", "[[:digit:]]*", "a\\/f", "**a", "a**", "***", "/**", "**/", "!", "\\", "//a",
+    "a//f", "*/", "a/*/", " a", "[a", "[]", "[]]", "[a-]", "[--0]", "[\\]]", "\\[a]", "a\\",
+    "a/**/", "**/**", "**/*", "*/**", "a/**b", "a/**/**/f", "**/a/**", "?", "??", "x.o/",
+    "/*", "/*/", "!/*", "a/b/../f", "./f", "a/./f", "[!]", "[^]]", "[x-a].o", "[.-x].o", "foo\\  ",
+    "\\ ", "#", "\\", "*.o ", "!*.o ", "a/ ", "/ a", "**/.gitignore", ".*", "[.]gitignore",
+];
+
 fn pattern_line(rng: &mut Rng) -> String {
+    if rng.chance(1, 3) {
+        return rng.pick(EXOTIC).to_string();
+    }
     let n = any_name(rng);
     let d = *rng.pick(DIRS);
     let d2 = *rng.pick(DIRS);
-    let line = match rng.below(44) {
+    let line = match rng.below(45) {
         0 | 1 | 2 => n.to_string(),
         3 => format!("/{n}"),
         4 => format!("{n}/"),
@@ -89,7 +101,9 @@ fn pattern_line(rng: &mut Rng) -> String {
         40 => "x\\*y".to_string(),
         41 => "*.[oa]".to_string(),
         42 => format!("{d}/{d2}/"),
-        _ => format!("{d}/**/{d2}/*"),
+        43 => format!("{d}/**/{d2}/*"),
+        // known finding (globstar-after-literal-prefix): jj and Git disagree on these
+        _ => format!("{d}**/{n}"),
     };
     line
 }
